@@ -396,7 +396,74 @@ def block_assembler(prog: Program) -> List[Instance]:
         ok = isinstance(dst_a, ast.Subscript) and isinstance(src_a, ast.Subscript) and win_part in org.deps_names(dst_a.slice) and blk_part in org.deps_names(src_a.slice) and "block" in short(src_a.value)
     out.append(Instance("R-GUARDSEQ", f"{e.qual}#paste-parts", OK if ok else BAD,
                         "the block is read through its own part of the intersection and written through the window's part" if ok else "source/destination parts of the 3-way intersection are swapped or not used for the paste", e.where()))
+    # the window array is allocated with the shape of the request, so along the non-spatial axes it
+    # must be indexed with full slices, not with the request's own (absolute) offsets
+    okb = None
+    for n in walk_own(e.node):
+        if isinstance(n, ast.Assign) and isinstance(n.value, ast.Call) and call_name(n.value) == "with_yx" and len(n.value.args) == 2 and win_part in names_in(n.value.args[1]):
+            base = n.value.args[0]
+            defs = [v for nm in names_in(base) for _, v in org.defs.get(nm, [])]
+            okb = bool(defs) and all(any(isinstance(x, ast.Call) and call_name(x) == "slice" and len(x.args) == 1 and isinstance(x.args[0], ast.Constant) and x.args[0].value is None for x in ast.walk(v)) for v in defs)
+    if okb is not None:
+        out.append(Instance("R-GUARDSEQ", f"{e.qual}#window-relative-index", OK if okb else BAD,
+                            "destination index keeps full slices on the non-spatial axes (the window array is request-relative)" if okb
+                            else "destination index re-uses the request's absolute offsets on the non-spatial axes although the window array starts at 0 there", e.where()))
     full = [n for n in walk_own(e.node) if isinstance(n, ast.Call) and call_name(n) == "full" and len(n.args) >= 2]
     okf = len(full) == 1 and isinstance(full[0].args[1], ast.Name) and full[0].args[1].id == "fill_value"
     out.append(Instance("R-GUARDSEQ", f"{e.qual}#fill-init", OK if okf else BAD, "window is initialised with the fill value" if okf else "window is not initialised with the fill value: absent tiles are undefined", e.where()))
+    return out
+
+
+def gcp_frames(prog: Program) -> List[Instance]:
+    """C02: GCPGeoBox composes the control-point fit with the crop/zoom affine.  Two pixel frames
+    exist: the frame of the control points (MAP) and the frame of the view (VIEW), related by
+    MAP = affine * VIEW.  Every conversion must go the right way: VIEW->MAP multiplies by the
+    affine, MAP->VIEW by its inverse."""
+    out: List[Instance] = []
+    ci = prog.cls("gcp:GCPGeoBox")
+
+    def inv(e: ast.AST) -> Optional[bool]:
+        """True: ~self._affine (or a local bound to it); False: self._affine; None: neither."""
+        if isinstance(e, ast.UnaryOp) and isinstance(e.op, ast.Invert) and short(e.operand).endswith("._affine"):
+            return True
+        if isinstance(e, ast.Attribute) and e.attr == "_affine":
+            return False
+        return None
+
+    for mname, want_inv, what in (("wld2pix", True, "world -> control-point frame (w2p) -> view frame needs the inverse affine"),
+                                  ("pix2wld", False, "view frame -> control-point frame needs the affine itself before p2w"),
+                                  ("to_crs", True, "control points are re-expressed in the view frame with the inverse affine"),
+                                  ("gcps", True, "control points are reported in the view frame with the inverse affine")):
+        m = ci.find_method(mname)
+        if m is None:
+            out.append(Instance("R-FRAME", f"{ci.qual}.{mname}#direction", UNDET, "method not found", ""))
+            continue
+        org = Origins(m)
+        uses: List[Tuple[ast.AST, Optional[bool]]] = []
+        nodes = list(walk_own(m.node)) + [x for nf in m.nested.values() for x in walk_own(nf.node)]
+        for n in nodes:
+            cand = None
+            if isinstance(n, ast.BinOp) and isinstance(n.op, ast.Mult):
+                cand = n.left
+            elif isinstance(n, ast.Call) and call_name(n) == "transform" and n.args:
+                cand = n.args[0]
+            if cand is None:
+                continue
+            v = inv(cand)
+            if v is None and isinstance(cand, ast.Name):
+                for _, d in org.defs.get(cand.id, []):
+                    v = inv(d) if inv(d) is not None else v
+            if v is not None:
+                uses.append((n, v))
+        if not uses:
+            out.append(Instance("R-FRAME", f"{m.qual}#direction", UNDET, "no application of the view affine found", m.where()))
+            continue
+        bad = [n for n, v in uses if v != want_inv]
+        out.append(Instance("R-FRAME", f"{m.qual}#direction", BAD if bad else OK,
+                            f"`{short(bad[0], 60)}` applies the view affine in the wrong direction: {what}" if bad else what, m.where(uses[0][0])))
+    # approx: mapping.approx * affine (VIEW -> MAP -> world)
+    a = ci.find_method("approx")
+    if a is not None:
+        ok = any(isinstance(n, ast.BinOp) and isinstance(n.op, ast.Mult) and short(n.left).endswith(".approx") and inv(n.right) is False for n in walk_own(a.node))
+        out.append(Instance("R-FRAME", f"{a.qual}#composition", OK if ok else BAD, "approximate geobox = control-point affine * view affine" if ok else "approximate geobox does not compose control-point affine * view affine in that order", a.where()))
     return out
